@@ -323,7 +323,25 @@ func (V *Verifier) discharge(o *Oblig, sums map[string]*SumFn, dir string) {
 	got := ""
 	for range cfgs {
 		r := <-ch
-		first := strings.TrimSpace(strings.SplitN(strings.TrimSpace(r.out), "\n", 2)[0])
+		first := "error"
+		if strings.Contains(r.out, "(error") {
+			// a solver that rejected part of the query has not decided the query we meant: never accept its verdict
+			r.out = "error: " + strings.SplitN(r.out[strings.Index(r.out, "(error"):], "\n", 2)[0]
+		}
+		for _, ln := range strings.Split(r.out, "\n") {
+			ln = strings.TrimSpace(ln)
+			if ln == "sat" || ln == "unsat" || ln == "unknown" || ln == "timeout" {
+				first = ln
+				break
+			}
+			if strings.Contains(ln, "interrupted by timeout") {
+				first = "timeout"
+				break
+			}
+			if strings.HasPrefix(ln, "(error") && first == "error" {
+				first = "error:" + ln
+			}
+		}
 		if ctx.Err() != nil && got != "" {
 			continue
 		}
